@@ -380,6 +380,13 @@ var trafficSets = []*ConvSet{
 		udp("e", "10.0.8.1", 40124, "10.0.8.2", 9999, cm(""), sm(""), cm("")),
 		udp("f", "10.0.8.1", 40125, "10.0.8.2", 9999, cm("x"), sm("y")),
 	}},
+	// a flow that goes on alone for a while (a capture that only continues it holds no new conversation and not the
+	// highest id) before a third flow starts
+	{Name: "udp-late-starter", Interleaves: []string{"ord:0,1,0,2,0"}, Convs: []ConvSpec{
+		udp("a", "10.0.9.1", 41000, "10.0.9.2", 53, cm("a0"), sm("A1"), cm("a2")),
+		udp("b", "10.0.9.3", 41001, "10.0.9.2", 53, cm("b0")),
+		udp("c", "10.0.9.4", 41002, "10.0.9.2", 53, cm("c0")),
+	}},
 	{Name: "udp6", Interleaves: single, Convs: []ConvSpec{
 		udp("u", "fd00::11", 123, "fd00::12", 123, cm("ab"), cm("cde"), sm("f")),
 	}},
@@ -798,6 +805,20 @@ func interleave(lists [][]*Pkt, pattern string) ([]*Pkt, error) {
 			if !any {
 				break
 			}
+		}
+	case strings.HasPrefix(pattern, "ord:"):
+		// an explicit order: the next packet of the named flow at each position, whatever is left afterwards flow by flow
+		next := make([]int, len(lists))
+		for _, f := range strings.Split(strings.TrimPrefix(pattern, "ord:"), ",") {
+			c, err := strconv.Atoi(f)
+			if err != nil || c < 0 || c >= len(lists) || next[c] >= len(lists[c]) {
+				return nil, fmt.Errorf("bad interleaving %q", pattern)
+			}
+			out = append(out, lists[c][next[c]])
+			next[c]++
+		}
+		for c := range lists {
+			out = append(out, lists[c][next[c]:]...)
 		}
 	case strings.HasPrefix(pattern, "wrap:"):
 		// first k packets of flow 0, then all other flows, then the rest of flow 0
